@@ -239,7 +239,7 @@ def run(res, tier):
         res.violation("typecheck:%s:%s:%s:copy=%s:impl_debug=%s" % (meta[pnames[k]][0], "+".join(codes), what,
                                                                    o["derive_copy"], o["impl_debug"]),
                       {"case": pnames[k], "options": meta[pnames[k]][1], "flags": flags_of(meta[pnames[k]][1]),
-                       "header": SHAPES[meta[pnames[k]][0]][1], "rustc": m1[-1500:]})
+                       "header": SHAPES[meta[pnames[k]][0]][1], "rustc": m1[:3000]})
     res.add(traces_validated_against_impl=len(jobs), option_sets_enumerated=nall, option_sets_run=len(opts),
             shape_runs=len(jobs), trait_probes=sum(len(p[2]) for p in probes), outputs_compiled=len(texts))
     res.sample_case({"shape": "bigarr", "options": opts[0], "flags": flags_of(opts[0])})
